@@ -52,6 +52,20 @@ Definition readers (w : wid) : list net :=
 Definition readports (m : Z) : list net :=
   filter (fun n => match nop n with OpMemRd m' => m' =? m | _ => false end) (nets nl).
 
+(* mem.writeport_nets *)
+Definition writeports (m : Z) : list net :=
+  filter (fun n => match nop n with OpMemWr m' => m' =? m | _ => false end) (nets nl).
+
+(* _bits_ports_and_isrom_from_memory(mem): what the default delay of an 'm' gate
+   (and area_estimation) is a function of:
+     bits  = 2**addrwidth * bitwidth
+     ports = max(len(mem.readport_nets), len(mem.writeport_nets))
+     isrom = isinstance(mem, RomBlock) *)
+Definition mem_shape (x : mem) : Z * Z * Z :=
+  (2 ^ maddrw x * mdataw x,
+   Z.max (Z.of_nat (length (readports (mid x)))) (Z.of_nat (length (writeports (mid x)))),
+   match mrom x with Some _ => 1 | None => 0 end).
+
 Section DFS.
 Variable dst : wid.
 
@@ -112,5 +126,12 @@ Definition paths_raw (src dst : wid) : list (list net) :=
 Definition paths (src dst : wid) : list (list net) :=
   if src =? dst then paths_raw src dst
   else suffix_filter src (sort_desc (paths_raw src dst)).
+
+(* paths(src, dst) with collections (or the None defaults = all Inputs / all Outputs):
+     for src_wire in src: for dst_wire in dst: all_paths[src_wire][dst_wire] = <the above>
+   every pair is treated on its own; in particular the loop filter looks only at
+   whether THIS pair has src_wire is dst_wire *)
+Definition paths_multi (srcs dsts : list wid) : list (wid * list (wid * list (list net))) :=
+  map (fun s => (s, map (fun d => (d, paths s d)) dsts)) srcs.
 
 End Paths.
